@@ -65,6 +65,7 @@ type PrintCtx struct {
 	prefix string
 
 	inGroupedMode bool
+	skipSep       bool // JSON: the next attribute is the first member of an object, no separator before it
 
 	// curdir string
 
